@@ -31,9 +31,7 @@ def run(ctx):
     ra = ctx.rule('R04.a', 'writer waits (AGAIN) while readers > 0; all flows examined', floor=3)
     rb = ctx.rule('R04.b', 'reader counter touched only through atomic helpers returning the post-value', floor=4)
     rc = ctx.rule('R04.c', 'AGAIN from prepare_input: rescheduled once, not completed', floor=1)
-    rd = ctx.rule('R04.d', 'chain walk behind a writer: the reader hold is decided on the current task, never on the operation type / flow index already advanced to the next task in line', floor=4)
-    from rules.C03 import check_chain_index
-    check_chain_index(ctx, rd)
+    rd = ctx.rule('R04.d', 'chain walk behind a writer: the reader hold is decided on the current task, never on the operation type / flow index already advanced to the next task in line; self-hold released through the earlier flow', floor=4)
     f = u.func('data_lookup_of_dtd_task'); ctx.functions_analysed.add(f.name)
     rets = f.returns()
     again = [r for r in rets if r.e is not None and r.e.s == 'PARSEC_HOOK_RETURN_AGAIN']
@@ -102,3 +100,7 @@ def run(ctx):
     from rules import C16
     us = ctx.extract('parsec/scheduling.c')
     C16.check_task_progress(ctx, rc, us, only='prepare_input')
+    from rules.C03 import check_chain_index
+    check_chain_index(ctx, rd)
+    from rules import dtdcommon as _D
+    _D.check_self_hold_release(ctx, rd, 'self-hold')
